@@ -964,6 +964,9 @@ func globalReadOK(g *ssa.Global) bool {
 		case "Stdout", "Stderr", "Stdin", "Args", "ErrNotExist", "ErrExist", "ErrPermission":
 			return true
 		}
+	case "net/http":
+		// the zero error value stands for http.ErrServerClosed (engine/httpsrv.go)
+		return g.Name() == "ErrServerClosed"
 	case "sync", "sync/atomic", "runtime", "internal/race", "internal/godebug", "unsafe", "internal/cpu":
 		return true
 	}
